@@ -173,5 +173,6 @@ func FloatOutEqual(out string, f float64) bool {
 	if math.IsNaN(f) {
 		return math.IsNaN(g)
 	}
-	return g == f
+	// (negative zero is a value of its own: what is rendered must denote it)
+	return g == f && math.Signbit(g) == math.Signbit(f)
 }
